@@ -1261,6 +1261,12 @@ def run(ctx, out, replay=None):
         cases.append(gen_case(ctx.rng, small=(j % 2 == 0), alloc=(None if j % 8 != 5 else (j % 16 != 5)),
                               via=("ifile" if j % 8 == 5 and (j // 16) % 3 != 0 else "file"), big=big,
                               spell=(j % 3 == 1), near=near))
+    # the few 32..36-cell cases cost up to a minute each in vm_compute and the shards (10 consecutive cases) are awaited in
+    # order: one per shard at the head of the list, so that they run side by side instead of stalling the queue four times
+    large = [c for c in cases if len(c["cells"]) >= 30]
+    cases = [c for c in cases if len(c["cells"]) < 30]
+    for i, c in enumerate(large):
+        cases.insert(min(10 * i + 9, len(cases)), c)
     stats = {"spelled": 0, "lines_written_in_two_ways": 0, "near_lines": 0, "inexact_oracle_only": 0, "sat": 0, "unsat": 0, "keyerror": 0, "zerodiv": 0, "zero_quality_denominator": 0, "enumerated_instances": 0, "models_enumerated": 0,
              "max_clauses": 0, "with_diagram": 0}
 
